@@ -295,7 +295,8 @@ func runParse(c *Case, tr *Trace) {
 		case "write":
 			p := api.newParser(v)
 			ok := true
-			for _, ch := range chunksOf(doc, c.Cuts) {
+			chunks := chunksOf(doc, c.Cuts)
+			for ci, ch := range chunks {
 				buf := exact(ch)
 				n, err := p.Write(buf)
 				// scribble the caller's buffer: the parser must not depend on it any more
@@ -305,6 +306,17 @@ func runParse(c *Case, tr *Trace) {
 				ok = addCall("write", len(ch), err, depthsOf(p))
 				tr.Calls[len(tr.Calls)-1].Ret = n
 				if !ok {
+					if on, _ := c.Sub["aftererr"].(bool); on {
+						// a caller that keeps writing after the error: whatever the parser
+						// answers, it must answer (no hang, no crash). Events are not judged.
+						p.Write([]byte{})
+						for _, rest := range chunks[ci+1:] {
+							p.Write(exact(rest))
+						}
+						p.Write([]byte{})
+						p.Write(exact(doc))
+						take()
+					}
 					break
 				}
 			}
